@@ -677,6 +677,10 @@ class Interp(ExprMixin):
                     return K({"int": int, "float": float, "str": str, "bool": bool, "abs": abs}[b](targs[0][1]))
                 except Exception:
                     pass
+            if b == "str" and len(targs) == 1 and not tkw:
+                # str(x) and f"{x}" are the same string
+                t0 = targs[0]
+                return t0 if (isinstance(t0, tuple) and t0 and t0[0] == "fstr") else ("fstr", (t0,))
             return ("call", b, tuple(self.ref_term(a) for a in args), tkw)
         if b == "print" or dotted in PURE_EXT:
             return NONE
